@@ -57,8 +57,12 @@ func Parse(raw *Raw) ([]*Converter, error) {
 		converters = append(converters, converter)
 	}
 
-	sort.Slice(converters, func(i, j int) bool {
-		return converters[i].Name < converters[j].Name
+	sort.SliceStable(converters, func(i, j int) bool {
+		if converters[i].Name != converters[j].Name {
+			return converters[i].Name < converters[j].Name
+		}
+		// equal names (same interface name in two packages): do not depend on the input order
+		return converters[i].Package < converters[j].Package
 	})
 
 	return converters, nil
